@@ -118,8 +118,8 @@ type c04Setup struct {
 	KnobB         bool // B always offers an application section
 	AnswererFirst bool // A's first exchange is one in which it answers
 	SetCfgRate    float64
-	Prompt        bool // promptly negotiated history: a pending change is usually followed by a full exchange at once
-	LateDC        bool // no data channel before the first completed exchange: the FIRST one is created on a negotiated connection
+	Prompt        bool     // promptly negotiated history: a pending change is usually followed by a full exchange at once
+	LateDC        bool     // no data channel before the first completed exchange: the FIRST one is created on a negotiated connection
 	Script        []string // non-nil: this generated index re-runs a fixed script under CfgA (+ an inserted SetConfiguration)
 	ScriptNo      int
 }
@@ -1283,7 +1283,7 @@ func (h *c04Hist) step() bool { //nolint:cyclop
 
 		return h.doExchangeOfferer()
 	}
-	if h.setup.LateDC && h.phase == "stable" && h.renegotiate && h.dcCreated == 0 && len(h.pending) == 0 && h.rc.Chance(0.5) {
+	if h.setup.LateDC && h.phase == "stable" && h.renegotiate && h.dcCreated == 0 && len(h.pending) == 0 && h.rc.Chance(0.6) {
 		// the first data channel of a connection that has negotiated without one, as the only un-negotiated change
 		return h.doChange("dc")
 	}
@@ -1489,6 +1489,6 @@ func TestVerifC04(t *testing.T) {
 		"its 'true' withholds the re-arm; for must-fire its 'false' only adds an obligation); rollback is not a reset")
 	run.Assume("the first negotiation as answerer cannot be drained in have-remote-offer (startTransports blocks the queue until the peer has the answer): " +
 		"SetRemote(offer)+CreateAnswer+SetLocal(answer) is one compound op there, half exchanges in have-remote-offer only when renegotiating")
-	n := kit.N(560, 8000)
+	n := kit.N(640, 8000)
 	run.Parallel(n+len(c04Scripts), 16, func(i int) { c04RunHistory(run, i) })
 }
